@@ -6,6 +6,7 @@ import json
 import os
 import re
 import subprocess
+import tempfile
 import sys
 import time
 
@@ -262,18 +263,26 @@ def run_parallel(cmds, timeout=3000):
     while pending or running:
         while pending and len(running) < 16:
             i, c = pending.pop(0)
-            p = subprocess.Popen(["bash", "-c", c], stdout=subprocess.PIPE, stderr=subprocess.STDOUT, text=True)
+            # output goes to an unnamed temporary file: a pipe would block a process that prints
+            # more than the pipe buffer (a run with many mismatches) until the time limit
+            out = tempfile.TemporaryFile(mode="w+")
+            p = subprocess.Popen(["bash", "-c", c], stdout=out, stderr=subprocess.STDOUT, text=True)
+            p._out = out
             running.append((i, p))
         still = []
         for i, p in running:
             if p.poll() is None:
                 if time.time() > t_end:
                     p.kill()
+                    subprocess.call("pkill -9 -P %d" % p.pid, shell=True)
                     results[i] = (124, "timeout")
+                    p._out.close()
                 else:
                     still.append((i, p))
             else:
-                results[i] = (p.returncode, p.stdout.read())
+                p._out.seek(0)
+                results[i] = (p.returncode, p._out.read(20_000_000))
+                p._out.close()
         running = still
         if running:
             time.sleep(0.05)
